@@ -33,6 +33,7 @@ ASSUMPTIONS = ["Schema.rule_tests is never assigned by the library and is part o
 NSHARDS = 16
 TIME_CAP = {"quick": 150, "thorough": 600}
 
+OBJ_MODES = False  # the oracle here IS fresh-vs-shared objects; the builders must hand out plain fresh ones
 OPS = ["validate", "validate", "test", "filter", "get", "get_paths", "ctest"]
 
 
